@@ -1,5 +1,7 @@
 package sim
 
+import "strings"
+
 // Trigger predicates of listed known findings, evaluated on the MINIMISED
 // plan's violating command (DESIGN.md section 6).
 func Trigger(name string, p *Plan, r *RunResult) bool {
@@ -20,6 +22,12 @@ func Trigger(name string, p *Plan, r *RunResult) bool {
 		}
 	case "v1-batchget":
 		return cmd.Op == "BatchGet" && (p.World.SDKs[cmd.C] == "v1" || (p.Twin == "sdk" && cmd.C%2 == 0))
+	case "number-sort-key-order":
+		for _, f := range r.Fails {
+			if f.Rule == "C02.order" && (strings.Contains(f.Msg, "sort key type N") || strings.Contains(f.Msg, "sort key type B")) {
+				return true
+			}
+		}
 	case "update-names-key-attribute":
 		if cmd.Op != "Update" {
 			return false
